@@ -2635,6 +2635,19 @@ func (c *cli) rulePatchedRender(r *Report) {
 			}
 			up(call.Call.Value, 0)
 			if !fromPatch {
+				// in a routine that patches, what is rendered for output is the patched document
+				hasPatch := false
+				allInstrs(fn, func(in2 ssa.Instruction) {
+					if pc, ok := in2.(*ssa.Call); ok && pc.Call.IsInvoke() && pc.Call.Method.Name() == "Patch" {
+						hasPatch = true
+					}
+				})
+				if hasPatch {
+					n++
+					ord++
+					r.Bad(rule, c.key(fn, fmt.Sprintf("renders-the-patched-document#%d", ord)), c.w.Pos(call.Pos()),
+						"a routine that applies a patch renders a document that is not the result of Patch (the unpatched input): correct only while Patch happens to update its receiver in place; a root array that grows or shrinks, or a replaced root value, is printed unpatched")
+				}
 				return
 			}
 			n++
